@@ -20,7 +20,7 @@ RULE = ("cases = (trajectory of 2..500 poses [+ second trajectory], plot mode, l
         "the coordinate-frame markers of the random stream to 64 ulp: numpy's dot may fuse); trajectories built through the constructor "
         "from int64/int32/float32/float64 position arrays (mixed pairs, both argument orders, offsets ~5e5, int colour/error arrays) are "
         "compared with the model fed the exact rational value of each input element (also strided / Fortran / read-only arrays and lists, "
-        "pre-read caches); half of the cases replay an object-reuse history (speeds -> traj_xyz twice -> traj_rpy -> speeds twice -> traj "
+        "pre-read caches); a third of the cases replay an object-reuse history (speeds -> traj_xyz twice -> traj_rpy -> speeds twice -> traj "
         "twice on one Axes) where every call is judged on the object's own data; trajectories() with dict of 2/3, list of 3, single object and "
         "adversarial names; numeric arguments (start time, marker scale, colour-map bounds) as Python int/float, numpy float64/float32/int64/"
         "int32 scalars and 0-d arrays (value made exactly representable first); figure-management variants (target figure not pyplot's "
@@ -120,7 +120,7 @@ def gen_case(r, grid, n, mode=None, unit=None):
             "via_trajectories": r.choice([False] * 6 + [True, True, "dict3", "list3", "single"]),
             "names": r.sample(["est", "a_b", "\u00fc x", "1e3", " lead", "b.tum", "-1", "x" * 40], 3),
             "preread": r.sample(["positions_xyz", "orientations_quat_wxyz", "poses_se3", "distances", "check", "timestamps"], r.randint(0, 3)),
-            "stamps_readonly": r.random() < 0.15, "reuse": r.random() < 0.5,
+            "stamps_readonly": r.random() < 0.15, "reuse": r.random() < 0.35,
             "figmgmt": r.choice([None, None, "other_current", "bare", "two_axes"]),
             "step": step, "ncol": ncol, "clc_n": clc_n, "bad_unit": r.choice(NON_LENGTH) if r.random() < 0.05 else None}
 
@@ -203,7 +203,7 @@ def gen_cases_(ctx):
         for mode in MODES:
             for dt1, dt2 in DTYPE_PAIRS:
                 yield gen_typed_case(r, mode, dt1, dt2)
-    n_grid, n_rand = (75, 75) if not ctx.thorough else (800, 800)
+    n_grid, n_rand = (65, 65) if not ctx.thorough else (800, 800)
     for k in range(n_grid):
         yield gen_case(r, True, r.choice([2, 3, 3, 4, 5, 7, 8, 9, 13, 15, 16, 17, 31, 32, 33, r.randint(2, 40)]))
     for k in range(n_rand):
